@@ -6,15 +6,18 @@ Model of the parts of chibicc that decide sizes, alignments and layouts (propert
                        constants, keyword ladder and switch table come from `Gen/DeclspecGen.lean`.
 * `structLayout`     — parse.c `struct_decl` (offset assignment loop, final `align_to`).
 * `unionLayout`      — parse.c `union_decl`.
-* `Ty.sizeAlign`     — type.c `array_of` / `pointer_to` / `enum_type` / primitive literals, and
+* `Ty.sizeAlign`     — type.c `array_of` / `pointer_to` / `enum_type` / primitive literals, `attribute_list`'s
+                       `aligned(n)` (`alignAttr`: guard and assignment regenerated from parse.c) and
                        `struct_members` (member alignment from the `_Alignas` specifiers as `declspec` accumulates them,
-                       flexible array member → `array_of(base, 0)`).
+                       the integer-type requirement on bit-fields, flexible array member → `array_of(base, 0)`).
 * `varAlign`         — alignment of a declared object: new_var's `var->align = ty->align`, overridden by
                        `if (attr->align) var->align = attr->align` (automatic, block-scope static, file scope).
 
 C `int` is modelled by unbounded `Int` (`/` and `%` are C's truncating `Int.tdiv` / `Int.tmod`); the theorems state
 the no-overflow bound where it matters.  Every C division is guarded: a zero divisor is the explicit outcome
-`Fail.divByZero` (SIGFPE in cc1), never Lean's `x / 0 = 0`.
+`Fail.divByZero` (SIGFPE in cc1), never Lean's `x / 0 = 0`.  The two located diagnostics on the way to a layout
+(`aligned(n)` outside 0 / the powers of two up to 2^28; a bit-field whose declared type is not an integer type) are the
+outcomes `TyFail.badAlign` / `TyFail.bitfieldType` of the type-level functions.
 
 Core Lean only.
 -/
@@ -197,49 +200,100 @@ end
 def primSize (t : TyName) : Int := ((primInfo t).1 : Nat)
 def primAlign (t : TyName) : Int := ((primInfo t).2.1 : Nat)
 
+/-- outcomes of the type-level functions (`declspec`/`declarator`/`struct_members`/`attribute_list` around
+    `struct_decl`/`union_decl`) other than a type: the SIGFPE of the loops above, or one of the two located diagnostics -/
+inductive TyFail where
+  | divByZero          -- `Fail.divByZero` of struct_decl / union_decl
+  | badAlign           -- attribute_list: error_tok(start, "alignment must be a power of two no larger than 2^28")
+  | bitfieldType       -- struct_members: error_tok(tok, "bit-field has non-integer type")
+  deriving DecidableEq, Repr
+
+def Fail.toTy : Fail → TyFail
+  | .divByZero => .divByZero
+
+/-- run `struct_decl` / `union_decl` inside the type-level functions -/
+def liftFail {α : Type} : Except Fail α → Except TyFail α
+  | .ok a => .ok a
+  | .error e => .error e.toTy
+
+/-- `attribute_list`, one `aligned(n)` (`none`: no such attribute): `cur` is `ty->align` before (struct_type() leaves
+    STRUCT_INIT_ALIGN).  `int64_t n = const_expr(..)`; the guard and the assignment are regenerated from parse.c:
+    `if (n < 0 || n > (1 << 28) || (n & (n - 1))) error_tok(..); if (n) ty->align = n;` -/
+def alignAttr (cur : Int) : Option Int → Except TyFail Int
+  | none => .ok cur
+  | some n => if alignedAttrBad n then .error .badAlign else .ok (alignedAttrApply cur n)
+
+/-- `ty->kind` of a type description (type.c: the literals, pointer_to, enum_type, array_of, struct_decl/union_decl) -/
+def Ty.kind : Ty → String
+  | .prim t => primKind t
+  | .enum => "TY_ENUM"
+  | .ptr => "TY_PTR"
+  | .arr _ _ => "TY_ARRAY"
+  | .flex _ => "TY_ARRAY"
+  | .struct _ _ _ => "TY_STRUCT"
+  | .union _ _ _ => "TY_UNION"
+
+/-- type.c `is_integer(ty)` (list of kinds regenerated from type.c) -/
+def Ty.isInteger (t : Ty) : Bool := integerKinds.contains t.kind
+
 mutual
-  /-- (ty->size, ty->align) -/
-  def Ty.sizeAlign : Ty → Except Fail (Int × Int)
+  /-- (ty->size, ty->align).  An aggregate is `struct_union_decl` followed by the loop of `struct_decl`/`union_decl`:
+      struct_type(), then the `aligned(n)` attribute (modelled in the position before the tag/member list, so that of two
+      diagnostics the one that comes first in the source is the one reported), then `struct_members`, then the loop. -/
+  def Ty.sizeAlign : Ty → Except TyFail (Int × Int)
     | .prim t => .ok (primSize t, primAlign t)
     | .enum => .ok ((ENUM_SIZE : Nat), (ENUM_ALIGN : Nat))
     | .ptr => .ok ((PTR_SIZE : Nat), (PTR_ALIGN : Nat))
     | .arr e n => do let (s, a) ← e.sizeAlign; pure (s * n, a)
     | .flex e => do let (s, a) ← e.sizeAlign; pure (s * 0, a)
     | .struct p al ms => do
-      let l ← structLayout p (al.getD (STRUCT_INIT_ALIGN : Nat)) (← ms.toMems)
+      let a0 ← alignAttr (STRUCT_INIT_ALIGN : Nat) al
+      let mems ← ms.toMems
+      let l ← liftFail (structLayout p a0 mems)
       pure (l.size, l.align)
     | .union p al ms => do
-      let l ← unionLayout p (al.getD (STRUCT_INIT_ALIGN : Nat)) (← ms.toMems)
+      let a0 ← alignAttr (STRUCT_INIT_ALIGN : Nat) al
+      let mems ← ms.toMems
+      let l ← liftFail (unionLayout p a0 mems)
       pure (l.size, l.align)
   /-- `declspec`, the `_Alignas` arm, run over the specifiers of one declaration: `acc` is attr->align so far (starts 0);
       each specifier does attr->align = MAX(attr->align, align) with align = typename(..)->align or const_expr(..) -/
-  def Aligns.eval : Aligns → Int → Except Fail Int
+  def Aligns.eval : Aligns → Int → Except TyFail Int
     | .nil, acc => .ok acc
     | .const n rest, acc => rest.eval (alignasCombine acc (alignasOfConst n))
     | .type t rest, acc => do
       let (s, a) ← t.sizeAlign
       rest.eval (alignasCombine acc (alignasOfType s a))
-  /-- `struct_members`: mem->align = attr.align ? attr.align : mem->ty->align -/
-  def Members.toMems : Members → Except Fail (List Mem)
+  /-- `struct_members`: declspec (with its `_Alignas` specifiers), declarator, mem->align = attr.align ? attr.align :
+      mem->ty->align, and for a bit-field `if (!is_integer(mem->ty)) error_tok(tok, "bit-field has non-integer type")` -/
+  def Members.toMems : Members → Except TyFail (List Mem)
     | .nil => .ok []
     | .cons d as ty rest => do
       let attrAlign ← as.eval 0
       let (s, a) ← ty.sizeAlign
-      let tl ← rest.toMems
-      pure ({ size := s, align := memberAlign attrAlign a, bitWidth := d.bitWidth, named := d.named } :: tl)
+      if d.bitWidth.isSome && !ty.isInteger then .error .bitfieldType
+      else do
+        let tl ← rest.toMems
+        pure ({ size := s, align := memberAlign attrAlign a, bitWidth := d.bitWidth, named := d.named } :: tl)
 end
 
 /-- alignment of an object declared with the specifiers `as` and type `ty` (all three storage classes use the same two
     assignments): var->align = ty->align; if (attr->align) var->align = attr->align; -/
-def varAlign (as : Aligns) (ty : Ty) : Except Fail Int := do
+def varAlign (as : Aligns) (ty : Ty) : Except TyFail Int := do
   let attrAlign ← as.eval 0
   let (_, a) ← ty.sizeAlign
   pure (if attrAlign ≠ 0 then attrAlign else a)
 
 /-- full layout of an aggregate (size, align, member placements); other types have no members -/
-def Ty.layout : Ty → Except Fail Layout
-  | .struct p al ms => do structLayout p (al.getD (STRUCT_INIT_ALIGN : Nat)) (← ms.toMems)
-  | .union p al ms => do unionLayout p (al.getD (STRUCT_INIT_ALIGN : Nat)) (← ms.toMems)
+def Ty.layout : Ty → Except TyFail Layout
+  | .struct p al ms => do
+    let a0 ← alignAttr (STRUCT_INIT_ALIGN : Nat) al
+    let mems ← ms.toMems
+    liftFail (structLayout p a0 mems)
+  | .union p al ms => do
+    let a0 ← alignAttr (STRUCT_INIT_ALIGN : Nat) al
+    let mems ← ms.toMems
+    liftFail (unionLayout p a0 mems)
   | t => do let (s, a) ← t.sizeAlign; pure { size := s, align := a, placed := [] }
 
 end ChibiVerif.Layout
